@@ -173,8 +173,10 @@ _EQUAL_PRICES = (Decimal("100"), Decimal("100"), Decimal("250.5"), Decimal("100"
 
 def rand_price(rng: random.Random, style: str, max_sig: int = 0) -> Decimal:
     if style == "mixed":
-        style = rng.choice(("equal", "small", "small", "wide"))
-    if style == "equal":
+        style = rng.choice(("equal", "small", "small", "wide", "digits"))
+    if style == "digits":
+        value = Decimal(rng.randint(1, 10**15)) / Decimal(10**11)  # up to 15 significant digits, 11 decimals
+    elif style == "equal":
         value = rng.choice(_EQUAL_PRICES)
     elif style == "small":
         value = Decimal(rng.randint(1, 100000)) / rng.choice((1, 10, 100))
